@@ -104,6 +104,20 @@ def translate_expression(expr, env: Env) -> TExp:  # noqa: C901
                 inner_type,
                 [Symbol(f"{sn}.{i}") for i in range(inner_type.BIT_SIZE)],
             )
+        elif len(get_args(inner_type)) > 0:
+            # An element that is itself a tuple (a row of a matrix): all its bits
+            def _bits(base, ttype):
+                if len(get_args(ttype)) > 0:
+                    return [
+                        b
+                        for i, inner in enumerate(get_args(ttype))
+                        for b in _bits(f"{base}.{i}", inner)
+                    ]
+                elif hasattr(ttype, "BIT_SIZE"):
+                    return [f"{base}.{i}" for i in range(ttype.BIT_SIZE)]
+                return [base]
+
+            return (inner_type, [Symbol(b) for b in _bits(sn, inner_type)])
         else:
             return (inner_type, Symbol(sn))
 
